@@ -3,6 +3,7 @@ package h
 import (
 	"context"
 	"fmt"
+	"github.com/prometheus/prometheus/storage"
 	"strings"
 )
 
@@ -58,6 +59,11 @@ func (p *diffProp) Gen(seed uint64, tier string, i int) Case {
 	} else if r.P(0.15) {
 		c.Engine.EmptyQueryOpts = true // options given, but without a lookback delta: the engine's applies
 	}
+	if p.id == "C06" && r.P(0.06) {
+		// scalars and functions behave the same when the plan is cut into remote executions
+		c.NParts = 2
+		c.Engine.Opt = "none"
+	}
 	if p.tune != nil {
 		p.tune(r, &c, g)
 	}
@@ -66,6 +72,20 @@ func (p *diffProp) Gen(seed uint64, tier string, i int) Case {
 	}
 	c.Dataset = GenDataset(r.Fork(), c.Window, genLookback, 40, g.Hostile, g.on("hist") && r.P(0.3))
 	c.Query = GenQuery(r.Fork(), g)
+	if (p.id == "C01" || p.id == "C06" || p.extreme) && r.P(0.03) {
+		// series that differ in the metric name only and take turns (A, B, or A, B, A again) under an
+		// operator that drops the name: one output series assembled from several inputs
+		for k := 0; k < 1+r.Intn(2); k++ {
+			AddTwin(r, &c.Dataset, c.Window, genLookback, false, true)
+		}
+		c.Dataset.Normalize()
+		c.Query = Pick(r, c07Twins)
+	}
+	for range c.Dataset.Series {
+		if c.NParts > 0 {
+			c.Parts = append(c.Parts, r.Intn(c.NParts))
+		}
+	}
 	return c
 }
 
@@ -102,7 +122,17 @@ func (p *diffProp) Check(c Case) Outcome {
 		return o
 	}
 	ctx := context.Background()
-	eng := RunEngine(ctx, NewStore(c.Dataset, c.Store), c.Engine, c.Query, c.Window)
+	var eng ExecOut
+	if c.NParts > 0 {
+		var parts []storage.Queryable
+		for _, d := range partition(c) {
+			parts = append(parts, NewStore(d, c.Store))
+		}
+		eng = RunDistributedOver(ctx, NewStore(c.Dataset, c.Store), parts, c.Engine, c.Query, c.Window, nil)
+		o.Count("distributed_executions", 1)
+	} else {
+		eng = RunEngine(ctx, NewStore(c.Dataset, c.Store), c.Engine, c.Query, c.Window)
+	}
 	ref := RunReference(ctx, NewStore(c.Dataset, c.Store), c.Engine, c.Query, c.Window)
 	o.Count("native", 1)
 	if ref.Res.Err != nil {
